@@ -3,6 +3,7 @@ CONSTANTS
   Scope = "dedupe"
   MemoFinalOnly = FALSE
   DedupeNeighbour = TRUE
+  LexicalClean = FALSE
   MaxSteps = 40
 CHECK_DEADLOCK FALSE
 INVARIANT ResultOK
